@@ -58,6 +58,7 @@ def run_shard(binary, test, checks, seed, outpath, timeout_s, extra_env, cwd, ti
     env["VERIF_OUT"] = outpath
     env["VERIF_TIER"] = tier
     env["VERIF_RAPID_SEED"] = str(seed)
+    env["VERIF_TMP"] = os.path.dirname(outpath)
     cmd = [binary, "-test.run", f"^({test})$", f"-rapid.checks={checks}", f"-rapid.seed={seed}",
            "-rapid.nofailfile", "-rapid.shrinktime=60s", f"-test.timeout={timeout_s}s", "-test.count=1"]
     t0 = time.time()
